@@ -1,1 +1,105 @@
 import SwcVerif.Model.Mst
+import Mathlib.Algebra.Order.Field.Rat
+import Mathlib.Tactic.Linarith
+/-! # C17 — point-cloud tree construction yields the intended spanning tree
+
+Theorems about the model `Mst.step` / `Mst.run` of the greedy loop of `PointsToCuntzMST.__call__`
+(tied to the code by the `c17.mst` correspondence on the code's own distance matrix). `dis` is any
+`n × n` matrix of rationals, `bf` the balancing factor, `limit` the branching limit (`none` = `-1`). -/
+namespace C17
+open Mst
+
+/-- the cell `(i, j)` is not masked -/
+def Open (s : St) (i j : Nat) : Prop := (s.mask.getD i []).getD j true = false
+def Conn (s : St) (i : Nat) : Prop := s.conn.getD i false = true
+
+/-- the point already has as many children as the limit allows (and is not the exempt root) -/
+def Saturated (limit : Option Nat) (excl : Bool) (s : St) (i : Nat) : Prop :=
+  ∃ k, limit = some k ∧ k ≤ s.furc.getD i 0 ∧ (excl = false ∨ i ≠ 0)
+
+/-- number of points whose parent is `i` -/
+def children (s : St) (i : Nat) : Nat := (s.pid.filter (· = (i : Int))).length
+
+/-- following parents `d` times -/
+def up (s : St) : Nat → Nat → Int
+  | 0, j => j
+  | d+1, j => match s.pid.getD j (-1) with
+    | -1 => -1
+    | p => up s d p.toNat
+
+/-- **the loop invariant** -/
+structure Inv (dis : List (List Rat)) (n : Nat) (limit : Option Nat) (excl : Bool) (s : St) : Prop where
+  len : s.pid.length = n ∧ s.acc.length = n ∧ s.furc.length = n ∧ s.conn.length = n ∧ s.mask.length = n ∧ ∀ r ∈ s.mask, r.length = n
+  root : Conn s 0 ∧ s.pid.getD 0 0 = -1 ∧ s.acc.getD 0 1 = 0
+  /-- open cells are exactly: connected, unsaturated source × not yet connected target -/
+  mask : ∀ i j, i < n → j < n → (Open s i j ↔ (Conn s i ∧ ¬ Saturated limit excl s i ∧ ¬ Conn s j))
+  /-- a connected point hangs from a connected point; an unconnected one has no parent yet -/
+  parent : ∀ j, j < n → j ≠ 0 →
+    (Conn s j → ∃ i, i < n ∧ s.pid.getD j 0 = (i : Int) ∧ Conn s i ∧ s.acc.getD j 0 = s.acc.getD i 0 + (dis.getD i []).getD j 0) ∧
+    (¬ Conn s j → s.pid.getD j 0 = -1)
+  /-- every connected point reaches point 0 by following parents -/
+  reach : ∀ j, j < n → Conn s j → ∃ d, d ≤ n ∧ up s d j = 0
+  /-- the most recently connected point has no children yet (so it can always take the next one) -/
+  fresh : ∃ i, i < n ∧ Conn s i ∧ s.furc.getD i 0 = 0
+  /-- `furcations[i]` counts the children, and never exceeds the limit for a non-exempt point -/
+  count : ∀ i, i < n → s.furc.getD i 0 = children s i ∧
+    (∀ k, limit = some k → 1 ≤ k → (excl = false ∨ i ≠ 0) → s.furc.getD i 0 ≤ k)
+
+theorem init_inv (dis : List (List Rat)) (n : Nat) (hn : 0 < n) (limit : Option Nat) (excl : Bool)
+    (hk : ∀ k, limit = some k → 1 ≤ k) :
+    Inv dis n limit excl (init n) := by
+  sorry
+
+/-- number of connected points -/
+def nconn (s : St) : Nat := (s.conn.filter id).length
+
+/-- **each new point is attached to the connected, unsaturated point that minimises edge length plus
+`bf` × that point's path length** (ties: the first in row-major order) — whenever some point is still
+unconnected, the chosen cell is open and no open cell is cheaper -/
+theorem greedy_step (dis : List (List Rat)) (bf : Rat) (n : Nat) (limit : Option Nat) (excl : Bool) (s : St)
+    (hi : Inv dis n limit excl s) (hk : ∀ k, limit = some k → 1 ≤ k) (hmore : nconn s < n) (hpos : 0 < nconn s) :
+    let ij := argmin dis bf s n
+    ij.1 < n ∧ ij.2 < n ∧ Open s ij.1 ij.2 ∧
+    ∀ i j, i < n → j < n → Open s i j → cellCost dis bf s ij.1 ij.2 ≤ cellCost dis bf s i j := by
+  sorry
+
+/-- the invariant is preserved, and one more point gets connected -/
+theorem step_inv (dis : List (List Rat)) (bf : Rat) (n : Nat) (limit : Option Nat) (excl : Bool) (s : St)
+    (hi : Inv dis n limit excl s) (hk : ∀ k, limit = some k → 1 ≤ k) (hmore : nconn s < n) (hpos : 0 < nconn s) :
+    Inv dis n limit excl (step dis bf limit excl n s) ∧ nconn (step dis bf limit excl n s) = nconn s + 1 := by
+  sorry
+
+/-- **a single tree containing every point exactly once, rooted at the first point**: after `n - 1`
+iterations every point is connected, has one parent (point 0 none) and reaches point 0 -/
+theorem spanning (dis : List (List Rat)) (bf : Rat) (n : Nat) (hn : 0 < n) (limit : Option Nat) (excl : Bool)
+    (hk : ∀ k, limit = some k → 1 ≤ k) :
+    let s := run dis bf limit excl n (n - 1) (init n)
+    Inv dis n limit excl s ∧ (∀ j, j < n → Conn s j) ∧
+    s.pid.getD 0 0 = -1 ∧ (∀ j, j < n → j ≠ 0 → ∃ i, i < n ∧ s.pid.getD j 0 = (i : Int)) ∧
+    (∀ j, j < n → ∃ d, d ≤ n ∧ up s d j = 0) := by
+  sorry
+
+/-- **with a branching limit `k` no node other than the (optionally exempt) root gets more than `k` children** -/
+theorem branching_limit (dis : List (List Rat)) (bf : Rat) (n : Nat) (hn : 0 < n) (k : Nat) (hk : 1 ≤ k) (excl : Bool)
+    (i : Nat) (hi : i < n) (hex : excl = false ∨ i ≠ 0) :
+    children (run dis bf (some k) excl n (n - 1) (init n)) i ≤ k := by
+  sorry
+
+/-- **Prim's step**: without balancing factor and without limit the chosen edge is a lightest edge between
+the connected and the unconnected points (the cut property; that repeating it yields a minimum spanning
+tree is the classical exchange argument, checked against Kruskal by the oracle, not proved here) -/
+theorem prim_step_partial (dis : List (List Rat)) (n : Nat) (excl : Bool) (s : St)
+    (hi : Inv dis n none excl s) (hmore : nconn s < n) (hpos : 0 < nconn s) :
+    let ij := argmin dis 0 s n
+    Conn s ij.1 ∧ ¬ Conn s ij.2 ∧
+    ∀ i j, i < n → j < n → Conn s i → ¬ Conn s j →
+      (dis.getD ij.1 []).getD ij.2 0 ≤ (dis.getD i []).getD j 0 := by
+  sorry
+
+-- non-vacuity / concrete behaviour: 4 points on a line at 0, 10, 11, 1
+def exDis : List (List Rat) := [[0, 10, 11, 1], [10, 0, 1, 9], [11, 1, 0, 10], [1, 9, 10, 0]]
+example : mst exDis 0 none true = [-1, 3, 1, 0] := by decide +kernel
+example : mst exDis 1 none true = [-1, 0, 0, 0] := by decide +kernel
+example : mst exDis 0 (some 1) false = [-1, 3, 1, 0] := by decide +kernel
+
+end C17
